@@ -52,6 +52,8 @@ type behaviour struct {
 	// Shadow: a second syncer of the node shares the reorg detector (as bridgesync and l1infotreesync share the L1 detector):
 	// it tracks the same blocks under its own subscriber id and acknowledges its reorg notifications at once
 	Shadow bool `json:"shadow"`
+	// Offset (free behaviours only): that many finalized blocks without watched events lie below the scripted chain
+	Offset int `json:"offset"`
 }
 
 var (
@@ -60,7 +62,8 @@ var (
 )
 
 type run struct {
-	abandoned bool // the node could not be joined after it was recorded as stuck: the behaviour ends there
+	offset    uint64 // blocks below the scripted chain (free behaviours)
+	abandoned bool   // the node could not be joined after it was recorded as stuck: the behaviour ends there
 	w         *tr.W
 	b         behaviour
 	c         *chain
@@ -122,6 +125,10 @@ func (r *run) play(id int, dir string, seed uint64) error {
 		return fmt.Errorf("bad configuration %+v", b)
 	}
 	r.c = newChain(r.w, seed*1000003+uint64(id))
+	if b.Offset > 0 && !b.Free {
+		return fmt.Errorf("offset needs a free behaviour (gate names of guided steps carry block numbers)")
+	}
+	r.offset = uint64(b.Offset)
 	r.e = newEnv(r.c)
 	fatalCh := make(chan string, 16)
 	sync.LogFatalf = func(format string, a ...interface{}) {
@@ -161,6 +168,9 @@ func (r *run) play(id int, dir string, seed uint64) error {
 		}
 	}()
 	r.c.Emit(tr.M{"ev": "cfg", "id": id, "chunk": b.Chunk, "tag": b.Tag, "buf": b.Buf, "proc": b.Proc})
+	if b.Offset > 0 {
+		r.c.prefill(b.Offset)
+	}
 	n, err := startNode(r.e, r.cfg)
 	if err != nil {
 		return err
@@ -312,7 +322,7 @@ func (r *run) envStep(s step, strict bool) error {
 	case "finalize":
 		err = r.c.finalize()
 	case "fork":
-		err = r.c.fork(s.N, s.C)
+		err = r.c.fork(s.N+r.offset, s.C)
 	case "restart":
 		return r.restart()
 	}
